@@ -392,7 +392,21 @@ def step(w: World, i):
         if op == 'child_arg':
             p = w.mm.Process(target=mgrtargets.child_via_arg, args=(w.reg[h],))
             p.start()
-            r = p.result()
+            if rng.random() < 0.5:
+                # the sender drops its own proxy while the argument is still in transit (the child has not unpickled it yet): the
+                # serialized proxy counts as a reference, the child must be able to use the object
+                del w.reg[h]
+                del m.handles[(0, h)]
+                w.obs['drops'] += 1
+                w.obs['dropped_while_in_transit'] = w.obs.get('dropped_while_in_transit', 0) + 1
+                try:
+                    r = p.result()
+                except Exception as e:  # noqa: BLE001
+                    w.viol.append({'mech': 'refcount/object-gone-while-proxy-in-transit', 'msg': f'a proxy passed as Process argument could not be used by the child after the sender dropped its own '
+                                   f'proxy right after start(): {e!r}'[:400]})
+                    r = None
+            else:
+                r = p.result()
         else:
             q = w.mm.Queue()
             q.put(w.reg[h])
